@@ -228,6 +228,13 @@ def liesel_model(fam, P):
         x = lsl.param(jnp.array([0.0]), lsl.Dist(tfd.Normal, loc=jnp.float64(0.0), scale=jnp.float64(1 / math.sqrt(P["pr"]))), name="x")
         rate = lsl.Var(lsl.Calc(lambda b: jnp.exp(t * b[0]), x), name="rate")
         y = lsl.obs(jnp.array(P["y"]), lsl.Dist(tfd.Poisson, rate=rate), name="y")
+    elif fam == "p2":           # two position keys: intercept (shape ()) and slope (shape (1,))
+        t = jnp.array(P["t"])
+        sd = jnp.float64(1 / math.sqrt(P["pr"]))
+        b0 = lsl.param(jnp.float64(0.0), lsl.Dist(tfd.Normal, loc=jnp.float64(0.0), scale=sd), name="intercept")
+        b1 = lsl.param(jnp.array([0.0]), lsl.Dist(tfd.Normal, loc=jnp.float64(0.0), scale=sd), name="slope")
+        rate = lsl.Var(lsl.Calc(lambda u, v: jnp.exp(u + v[0] * t), b0, b1), name="rate")
+        y = lsl.obs(jnp.array(P["y"]), lsl.Dist(tfd.Poisson, rate=rate), name="y")
     else:
         raise KeyError(fam)
     return lsl.GraphBuilder(to_float32=False).add(y).build_model()
@@ -244,13 +251,34 @@ def group_of(c):
     return json.dumps({k: c.get(k) for k in GROUP_KEYS} | {"P": c["P"], "n": len(c["x"])}, sort_keys=True)
 
 
+# multi-key blocks: (order in which the keys are handed to the kernel, shapes).  The flat position of a dict
+# block is laid out in SORTED key order (ravel_pytree); every multi-key order below is NOT alphabetical, with
+# mixed shapes, an uppercase name (sorts before lowercase) and a name that is a prefix of another.
+KEYSPECS = {
+    "x": (["x"], lambda n: {"x": (n,)}),
+    "ba": (["b", "a"], lambda n: {"a": (), "b": (n - 1,)}),
+    "si": (["slope", "intercept"], lambda n: {"intercept": (), "slope": (n - 1,)}),
+    "aZ": (["a", "Z"], lambda n: {"Z": (n - 1,), "a": ()}),
+    "pre": (["beta_0", "beta"], lambda n: {"beta": (n - 1,), "beta_0": ()}),
+    "gAb": (["gamma", "Alpha", "beta"], lambda n: {"Alpha": (), "beta": (n - 2,), "gamma": ()}),
+}
+
+
+def kernel_key_order(keys):
+    return list(KEYSPECS[keys][0])
+
+
 def split_keys(keys, n):
-    """layout of the block: list of (key, shape); flat order = sorted key order (canonical)"""
-    if keys == "x":
-        return [("x", (n,))]
-    if keys == "ba":            # keys given to the kernel as ("b", "a"): a scalar of shape (), b the rest
-        return [("a", ()), ("b", (n - 1,))]
-    raise KeyError(keys)
+    """layout of the block: list of (key, shape) in flat order = sorted key order (canonical)"""
+    return sorted(KEYSPECS[keys][1](n).items())
+
+
+def key_desc(c):
+    if c["keys"] == "x":
+        return ""
+    lay = split_keys(c["keys"], len(c["x"]))
+    return (f"position_keys={kernel_key_order(c['keys'])} (flat coordinates are in sorted key order "
+            + ", ".join(f"{k}{list(shp)}" for k, shp in lay) + "), ")
 
 
 def make_runner(c):
@@ -261,7 +289,7 @@ def make_runner(c):
 
     n = len(c["x"])
     layout = split_keys(c["keys"], n)
-    kernel_keys = ["x"] if c["keys"] == "x" else ["b", "a"]
+    kernel_keys = kernel_key_order(c["keys"])
     P = c["P"]
 
     def pos_of_flat(x):
@@ -449,6 +477,15 @@ PLAN = [
     ("iwls", "vg", 3, "dict", "default", "forced", "post", "x", None, 1, 8),
     ("iwls", "vp", 3, "dict", "default", "forced", "post", "x", None, 2, 12),
     ("iwls", "vp", 3, "dict", "default", "free", "post", "ba", None, 6, 30),
+    # several keys, handed to the kernel in NON-alphabetical order (forced stream: constant z, see gen_cases)
+    ("iwls", "vp", 3, "dict", "default", "forced", "post", "ba", None, 2, 10),
+    ("iwls", "p2", 2, "dict", "default", "forced", "post", "si", None, 2, 10),
+    ("iwls", "p2", 2, "liesel", "default", "forced", "post", "si", None, 2, 10),
+    ("iwls", "p2", 2, "liesel", "default", "free", "post", "si", None, 4, 16),
+    ("iwls", "vp", 2, "dict", "default", "forced", "post", "aZ", None, 2, 8),
+    ("iwls", "vg", 2, "dict", "default", "forced", "post", "pre", None, 1, 8),
+    ("iwls", "vp", 3, "dict", "default", "forced", "post", "gAb", None, 2, 10),
+    ("rw", "vp", 3, "dict", "default", "forced", "post", "gAb", None, 3, 12),
     ("rw", "qt", 1, "dict", "default", "forced", "post", "x", None, 6, 40),
     ("rw", "lg", 1, "dict", "default", "forced", "adapt", "x", None, 6, 24),
     ("rw", "vp", 2, "dict", "default", "forced", "post", "x", None, 6, 30),
@@ -511,6 +548,10 @@ def gen_cases(rnd, quick, scale=1.0, only_kernels=None):
                 z = [rnd.choice([-1, 1]) * dy(rnd, 2.5, 3.5) for _ in range(n)]
             elif r == 3:
                 x = [0.0] * n
+            if keys != "x" and mode == "forced":
+                # the same normal draw in every coordinate: the check then does not depend on WHICH consistent
+                # flattening order an implementation uses for the draw, only on evaluating the model at the true point
+                z = [z[0]] * n
             cases.append(dict(kernel=kernel, fam=fam, iface=iface, chol=chol, mode=mode, epoch=epoch, keys=keys,
                               decl=decl, P=Ps[j % nsets], x=x, z=z, s=s, seed=rnd.randrange(2 ** 31)))
     return cases
@@ -947,7 +988,7 @@ def oracle(c):
     x, xp, s = np.array(c["x"]), np.array(c["xp"]), c["s"]
     z = np.array(c["z"])
     forced = c["mode"] == "forced" and c["forced_ok"]
-    where = f"{c['kernel']} kernel, family {c['fam']} {c['P']}, x={c['x']}, z={c['z']}, step={s}: "
+    where = f"{c['kernel']} kernel, {key_desc(c)}family {c['fam']} {c['P']}, x={c['x']}, z={c['z']}, step={s}: "
     if c["kernel"] == "iwls":
         def F(a):
             if c["chol"] == "default":
@@ -1029,7 +1070,7 @@ def replay(rp):
             c2 = {k: v for k, v in c.items() if k not in ("p", "moved", "code", "xp", "forced_ok", "why")}
             run_cases([c2], jit=False)
             r = oracle(c2)
-            print(f"re-ran {c2['kernel']} kernel on family {c2['fam']} {c2['P']} x={c2['x']} z={c2['z']} step={c2['s']} mode={c2['mode']}: "
+            print(f"re-ran {c2['kernel']} kernel {key_desc(c2)}on family {c2['fam']} {c2['P']} x={c2['x']} z={c2['z']} step={c2['s']} mode={c2['mode']}: "
                   f"moved={c2['moved']} new state={c2['xp']} acceptance_prob={c2['p']!r}")
         if r:
             print("FAILS:", r)
